@@ -26,11 +26,11 @@ theorem name_accepted (env : ProcEnv) (pre name rest : List Char)
         ⟨pre ++ name ++ rest, rest, strLen pre + strLen name⟩) :=
   parseName_accept env pre name rest hne hfirst hall hlast hrest
 
-/-- leading whitespace is NOT always irrelevant outside the grammar: `a/b` is diagnosed as an
-    unnamed requirement, ` a/b` as a syntax error (both rejected; recorded in DESIGN §8) -/
-theorem leading_ws_changes_diagnosis (env : ProcEnv) (x : Ext) :
+/-- leading whitespace does not change the diagnosis (after F19; before it `a/b` was diagnosed as an
+    unnamed requirement and ` a/b` as a syntax error — this file proved that difference) -/
+theorem leading_ws_same_diagnosis (env : ProcEnv) (x : Ext) :
     (parseRequirement env x ['a', '/', 'b']).fin = .err ⟨.unsupported, 0, 3⟩ ∧
-    (parseRequirement env x [' ', 'a', '/', 'b']).fin = .err ⟨.string, 2, 1⟩ :=
-  leading_ws_changes_outcome env x
+    (parseRequirement env x [' ', 'a', '/', 'b']).fin = .err ⟨.unsupported, 0, 4⟩ :=
+  leading_ws_same_outcome env x
 
 end Pep508.C07
